@@ -171,9 +171,28 @@ THOROUGH = ["SE3Dcm", "SE23Dcm", "SE23Mrp"]
 RT2 = ["SO2", "SE2", "R3", "SO3Quat", "SO3Mrp", "SO3Dcm", "SE3Quat", "SE3Mrp"]
 
 
+def exp_canonical_trace(info):
+    """exp returns a CANONICAL element (what log's contract and rt2 assume about it): MRP part of norm <= 1 (non-shadow
+    branch) resp. unit quaternion, for every algebra element with rotation angle < pi, on every branch of the real code"""
+    grp, g, n = info.group, info.group.algebra, info.name
+    off = {"so3": 0, "se3": 3, "se23": 6}[info.kind]
+
+    def b(y):
+        X = g.elem(y).exp(grp)
+        r = X.param[off:off + (3 if info.so3 == "Mrp" else 4)]
+        return {"norm_sq": ca.dot(r, r), "one": ca.SX.ones(1, 1)}
+
+    kind = "le" if info.so3 == "Mrp" else "eq"
+    return _Trace(f"C03.{n}.exp-canonical", [alg_sort_lt_pi(info)], b,
+                  [Ob("exp returns a canonical element: |r|^2 <= 1 (non-shadow MRP)" if kind == "le" else "exp returns a unit quaternion", "norm_sq", "one", kind=kind)],
+                  functions=fns_of(info), decide=CLOSED, budget_s=900, smt_timeout=30, max_paths=128, definedness=False)
+
+
 def traces(tier="quick"):
     G = make_groups()
     out = []
+    for n in ["SO3Mrp", "SE3Mrp", "SE23Mrp", "SE23Quat"]:
+        out.append(exp_canonical_trace(G[n]))
     for n in QUICK + (THOROUGH if tier == "thorough" else []):
         out.append(rt1_trace(G[n], tier))
     for n in RT2:
